@@ -135,3 +135,15 @@ def run_fresh_each(exe, lines, workers=NCPU):
         return o[0] if o and o[0] else "CRASH(rc=%s)" % p.returncode
     with ThreadPoolExecutor(workers) as ex:
         return list(ex.map(one, lines))
+
+
+def qr_tie_jobs():
+    """encoder-argument strings 'qr <level> <mode> <hex>' of contents whose two best masks tie (corpus/qr_ties.txt)"""
+    out = []
+    path = os.path.join(VERIF, "corpus", "qr_ties.txt")
+    if os.path.exists(path):
+        for l in open(path):
+            l = l.split("#")[0].strip()
+            if l:
+                out.append("qr " + l)
+    return out
